@@ -17,6 +17,18 @@ var commonAssumptions = []string{
 }
 
 var propMeta = map[string]PropMeta{
+	"C09": {
+		NotCovered: "Systematic exploration of interleavings and pipe-buffer boundaries; the shape of a frame for every payload (it rests on json.Marshal emitting no raw newline); the POST-SSE response stream, whose writer is confined to the request's goroutine.",
+		Assumptions: append([]string{"holding the stream's lock during all writes of a frame is sufficient for frames not to interleave; json.Marshal output contains no raw LF/CR"}, commonAssumptions...),
+	},
+	"C12": {
+		NotCovered: "Linearizability against a set model under real schedules (the lock discipline plus one critical section per operation is the sufficient condition that is proved); the in-place splice of toolsOrder in unregisterTools; registration order of resources beyond the order slice holding only registered uris.",
+		Assumptions: append([]string{"at every lock acquisition the guarded fields and the contents of guarded maps are arbitrary (other goroutines may have run); postconditions are stated relative to that state (atlock)"}, commonAssumptions...),
+	},
+	"C20": {
+		NotCovered: "Fields handed between goroutines by channel operations or before a goroutine is started are not declared (trusted happens-before); races inside dependencies; the Go memory model itself. A discipline is a sufficient condition: a field may be race-free for reasons the declarations do not capture.",
+		Assumptions: append([]string{"constructors and the listed construction-time option functions run before the object is shared"}, commonAssumptions...),
+	},
 	"C06": {
 		NotCovered: "Deadlock between goroutines, goroutine-per-request leaks, 'keeps serving other clients', resource exhaustion by huge or deeply nested values (encoding/json's behaviour) and the HTTP status/JSON-RPC error answers (C03) are not decided. Dereferences of parameters and fields of unknown nil-ness are not obligations. Functions with a deferred recover() are exempt from the panic obligations (the panic does not crash the server).",
 		Assumptions: append([]string{
